@@ -36,7 +36,12 @@ func main() {
 	r.MinShapes(r.N(40, 200))
 
 	nCases := r.N(1500, 40000)
-	r.Parallel(nCases, func(c *vk.Case) {
+	// re-save cases (case index >= nCases; the first nCases cases keep their generator): handle mode in
+	// which a kept handle on which SetCode has been called is also saved again WITHOUT a new SetCode call
+	// (the caller only bumps the nonce), after its earlier save was reverted, overwritten through another
+	// handle, committed, or the account was removed meanwhile
+	nResave := r.N(600, 15000)
+	r.Parallel(nCases+nResave, func(c *vk.Case) {
 		rng := c.Rng
 		opt := acctmodel.Options{MaxTrieLevelInMemory: uint([]int{1, 2, 5}[rng.Intn(3)])}
 		if rng.Chance(1, 4) {
@@ -57,14 +62,19 @@ func main() {
 		// with respect to the trie (two handles of one account saved in turn, a handle saved again after
 		// its first save was reverted, a handle of an account that was removed meanwhile). No storage is
 		// used in these cases, so a stale handle never carries a stale data trie.
-		handleMode := c.Idx%4 == 3
+		resaveMode := c.Idx >= nCases
+		handleMode := c.Idx%4 == 3 || resaveMode
 		if handleMode {
 			wt.Storage = 0
 			r.Count("handle_mode_cases", 1)
 		}
+		if resaveMode {
+			r.Count("resave_mode_cases", 1)
+		}
 		type pooled struct {
-			addr []byte
-			h    state.UserAccountHandler
+			addr    []byte
+			h       state.UserAccountHandler
+			codeSet bool // SetCode has been called on this handle (it carries its own code from then on)
 		}
 		var pool []pooled
 		hashes := make([][]byte, len(u.Codes))
@@ -261,18 +271,29 @@ func main() {
 				}
 				i := rng.Intn(len(pool))
 				pc := pool[i]
-				var code []byte
-				ci := -1
-				if !rng.Chance(1, 6) {
-					ci = rng.Intn(len(u.Codes))
-					code = append([]byte{}, u.Codes[ci]...)
-				}
 				jl := env.ADB.JournalLen()
-				pc.h.SetCode(code)
-				errS := env.ADB.SaveAccount(pc.h)
-				r.Count("saves_through_kept_handle", 1)
-				w.Note("H%d.SetCode(C%d); SaveAccount(H%d) -> %v", i, ci, i, errS)
-				last = "save-through-kept-handle"
+				var errS error
+				if resaveMode && pc.codeSet && rng.Chance(2, 5) {
+					// the handle keeps the code of its last SetCode call; only the nonce changes
+					pc.h.IncreaseNonce(1)
+					errS = env.ADB.SaveAccount(pc.h)
+					r.Count("resaves_through_kept_handle_without_setcode", 1)
+					w.Note("H%d.IncreaseNonce(1); SaveAccount(H%d) (no new SetCode) -> %v", i, i, errS)
+					last = "resave-through-kept-handle"
+				} else {
+					var code []byte
+					ci := -1
+					if !rng.Chance(1, 6) {
+						ci = rng.Intn(len(u.Codes))
+						code = append([]byte{}, u.Codes[ci]...)
+					}
+					pc.h.SetCode(code)
+					pool[i].codeSet = true
+					errS = env.ADB.SaveAccount(pc.h)
+					r.Count("saves_through_kept_handle", 1)
+					w.Note("H%d.SetCode(C%d); SaveAccount(H%d) -> %v", i, ci, i, errS)
+					last = "save-through-kept-handle"
+				}
 				if errS != nil {
 					last = "failed-" + last + "+revert"
 					if errV := env.ADB.RevertToSnapshot(jl); errV != nil {
